@@ -116,12 +116,21 @@ enum Fam {
     /// every master is an affine image (scale + shift) of the default: IUP infers most deltas,
     /// with fractional inferred values inside its tolerance
     Scale,
+    /// the boundary of the IUP tolerance: every master is a rigid whole-unit shift of the default,
+    /// except that every other point moves one unit further in x, by an amount chosen so that in
+    /// EVERY gvar tuple of the glyph (masters on the {-1,0,1} grid) the delta of such a point is
+    /// exactly one unit off what IUP would infer from its neighbours: with the tolerance 0.5 no
+    /// delta may be left to inference, and a compiler that infers them anyway is off by one unit
+    /// per active tuple. Whole-unit shifts are applied after the scaling to the em, so this holds
+    /// at every upem.
+    Ripple,
 }
 
 impl Fam {
-    const ALL: [Fam; 4] = [Fam::AllMove, Fam::SomeStatic, Fam::OneContour, Fam::Scale];
+    const ALL: [Fam; 5] = [Fam::AllMove, Fam::SomeStatic, Fam::OneContour, Fam::Scale, Fam::Ripple];
     fn name(self) -> &'static str {
         match self {
+            Fam::Ripple => "ripple",
             Fam::AllMove => "all-move",
             Fam::SomeStatic => "some-static",
             Fam::OneContour => "one-contour",
@@ -391,7 +400,7 @@ fn spaces(tier: Tier) -> (Vec<Case>, Vec<Value>) {
             if small {
                 for upem in UPEMS {
                     for kind in [Kind::Line, Kind::Quadratic, Kind::Cubic] {
-                        for fam in [Fam::SomeStatic, Fam::Scale, Fam::AllMove] {
+                        for fam in [Fam::SomeStatic, Fam::Scale, Fam::Ripple, Fam::AllMove] {
                             for layer in &layers[..2] {
                                 cases.push(Case { upem, ..mk(layer, kind, fam) });
                                 n_upem += 1;
@@ -527,8 +536,23 @@ fn disp(fam: Fam, c: usize, i: usize, npts: usize, m: usize) -> (f64, f64) {
                 all
             }
         }
-        Fam::Scale => unreachable!(),
+        Fam::Scale | Fam::Ripple => unreachable!(),
     }
+}
+
+/// Ripple family: the extra x movement of the odd points at master `m` of a glyph drawn on the
+/// masters `on` (indices into `locs`): 1 + the number of the glyph's other non-default masters
+/// whose location agrees with `m`'s on every axis where it is not 0 (on the {-1,0,1} grid those
+/// are the masters whose tuples are active at `m` with scalar 1, each contributing its own unit).
+fn ripple_extra(locs: &[&QLoc], on: &[usize], m: usize) -> f64 {
+    if m == 0 {
+        return 0.0;
+    }
+    let below = on
+        .iter()
+        .filter(|&&j| j != 0 && j != m && locs[j].iter().zip(locs[m].iter()).all(|(a, b)| *a == 0 || a == b))
+        .count();
+    1.0 + below as f64
 }
 
 /// A 1000-upem coordinate in the em of the case: unchanged at 1000 upem, else scaled by upem/1000
@@ -538,13 +562,17 @@ fn em(v: f64, scale: f64) -> f64 {
     if scale == 1.0 { v } else { (v * scale * 2.0).round() / 2.0 }
 }
 
-fn drawing(s: Shape, fam: Fam, m: usize, scale: f64) -> Vec<Contour> {
+fn drawing(s: Shape, fam: Fam, m: usize, scale: f64, ripple: f64) -> Vec<Contour> {
     base_shape(s)
         .iter()
         .enumerate()
         .map(|(c, ct)| {
             let n = ct.points.len();
             shapes::map_contour(ct, |i, x, y| {
+                if fam == Fam::Ripple {
+                    let k = m as f64 * scale.ceil();
+                    return (em(x, scale) + 16.0 * k + if i % 2 == 1 { ripple } else { 0.0 }, em(y, scale) - 9.0 * k);
+                }
                 if fam == Fam::Scale {
                     let k = m as f64;
                     return (
@@ -620,7 +648,8 @@ fn build(case: &Case) -> (Design, fcx::Opts) {
     let simple = |name: &str, s: Shape, on: &[usize]| -> Glyph {
         let mut g = Glyph::new(name, &[]);
         for &m in on {
-            g.layers.insert(m, Layer { advance: em(800.0 + 10.0 * m as f64, scale), contours: drawing(s, case.fam, m, scale), ..Default::default() });
+            let ripple = ripple_extra(&all_locs, on, m);
+            g.layers.insert(m, Layer { advance: em(800.0 + 10.0 * m as f64, scale), contours: drawing(s, case.fam, m, scale, ripple), ..Default::default() });
         }
         g
     };
@@ -1902,6 +1931,31 @@ fn main() {
     let (cases, notes) = spaces(args.tier);
     if args.rest.iter().any(|a| a == "--selftest") {
         selftest();
+    }
+    // `--case '<Case as JSON>'`: one case of the space through all of its routes, with its counters
+    if let Some(i) = args.rest.iter().position(|a| a == "--case") {
+        let case: Case = serde_json::from_str(&args.rest[i + 1]).unwrap_or_else(|e| vcore::machinery_error(&format!("--case: {e}")));
+        let (d, opts) = build(&case);
+        println!("case: {}", case.label());
+        let mut bad = false;
+        for route in routes_of(&d) {
+            let mut st = Stats::default();
+            match judge(&d, &opts, route, true, case.kind == Kind::Cubic, &mut st) {
+                Outcome::Rejected(e) | Outcome::Panicked(e) => println!("[{}] not compiled: {e}", route.name()),
+                Outcome::Judged(f) => {
+                    println!(
+                        "[{}] comparisons {} points {} gvar tuples {} iup-omitted points {} comparisons with iup allowance {} max err {} max err/bound {}",
+                        route.name(), st.comparisons, st.points_compared, st.gvar_tuples, st.iup_omitted_points, st.comparisons_with_iup_allowance, st.max_err, st.max_err_over_bound
+                    );
+                    for x in &f {
+                        println!("VIOLATION [{}] {}", x.class, x.what);
+                    }
+                    bad |= !f.is_empty();
+                }
+            }
+        }
+        vcore::cleanup_scratch();
+        std::process::exit(bad as i32);
     }
     if args.rest.iter().any(|a| a == "--count") {
         println!("{} designs: {}", cases.len(), serde_json::to_string(&notes).unwrap());
